@@ -414,7 +414,7 @@ func main() {
 	workers := fs.Int("workers", 4, "")
 	sweep := fs.Bool("sweep", false, "one single-name spec per (slot kind, representative name)")
 	knownRuns := fs.Int("knownruns", 0, "how many listed findings to re-run (0 = all)")
-	nreg := fs.Int("regress", 8, "how many single-name regression specs (names the generator handles specially)")
+	nreg := fs.Int("regress", 11, "how many single-name regression specs (names the generator handles specially)")
 	_ = fs.Parse(os.Args[1:])
 	if *bin == "" || *work == "" || *out == "" {
 		die("-bin, -work, -out required")
@@ -620,7 +620,7 @@ func main() {
 				regs = append(regs, rg{slot, nm})
 			}
 		}
-		for _, nm := range []string{"type", "func", "default", "range", "string", "error", "int", "lab_test", "node_js", "linux", "amd64", "x-windows", "vendor", "internal", "id", "URL", "HTTPServer", "1st", "$ref", "+1", "a b", "a.b"} {
+		for _, nm := range []string{"type", "func", "default", "range", "string", "error", "int", "lab_test", "node_js", "linux", "amd64", "x-windows", "vendor", "internal", "id", "URL", "HTTPServer", "1st", "$ref", "+1", "a b", "a.b", "v1", "V3", "v10", "x_riscv", "x_hurd", "x_wasm", "x_ppc"} {
 			for _, slot := range []string{"def0", "prop0", "pq", "op0", "enum0", "tag0", "sec", "rh", "ph", "pb"} {
 				regs = append(regs, rg{slot, nm})
 			}
@@ -630,7 +630,9 @@ func main() {
 			regs[i], regs[jx] = regs[jx], regs[i]
 		}
 		// the first two are fixed: a capitalised timeout parameter and a definition ending in a go-build suffix
-		regs = append([]rg{{"pq", "Timeout"}, {"def0", "lab_test"}}, regs...)
+		// ... and a tag shaped like a major-version suffix with a capital V (its package must not be called v2), an operation id and a
+		// definition ending in words go build knows but no current port uses
+		regs = append([]rg{{"pq", "Timeout"}, {"def0", "lab_test"}, {"tag0", "V2"}, {"op0", "rebootZos"}, {"def0", "host_sparc"}}, regs...)
 		cnt := 0
 		for _, g := range regs {
 			if cnt >= *nreg {
@@ -650,6 +652,11 @@ func main() {
 	{
 		sp := newSpec()
 		sp.ExtraDefs = []string{"lab_test", "node_js", "x-windows", "DeviceIos", "robotArm", "cpu amd64"}
+		// every word go/build knows as an operating system or an architecture (go/build/syslist.go: past, present and future ports),
+		// as the last word of a definition name
+		for i, w := range goBuildWords {
+			sp.ExtraDefs = append(sp.ExtraDefs, fmt.Sprintf("part%d_%s", i, w))
+		}
 		jobs = append(jobs, &job{Spec: sp, Kind: "names"})
 	}
 	// dedicated single-name specs for the listed findings
@@ -891,3 +898,7 @@ func main() {
 	}
 	fmt.Printf("namecheck: %d name cases, %d op sets (%d with ties), %d generation jobs, C01 %d violations, C08 %d violations\n", nameCases, *nops, ties, evals, len(viols["C01"]), len(viols["C08"]))
 }
+
+// goBuildWords: knownOS and knownArch of go/build (syslist.go)
+var goBuildWords = []string{"aix", "android", "darwin", "dragonfly", "freebsd", "hurd", "illumos", "ios", "js", "linux", "nacl", "netbsd", "openbsd", "plan9", "solaris", "wasip1", "windows", "zos",
+	"386", "amd64", "amd64p32", "arm", "armbe", "arm64", "arm64be", "loong64", "mips", "mipsle", "mips64", "mips64le", "mips64p32", "mips64p32le", "ppc", "ppc64", "ppc64le", "riscv", "riscv64", "s390", "s390x", "sparc", "sparc64", "wasm"}
